@@ -55,6 +55,10 @@ func runSpec(s spec) vh.Case {
 			variant = parts[2]
 		}
 		c = genClone(r, deg, variant)
+	case "M":
+		readers, _ := strconv.Atoi(parts[1])
+		moves, _ := strconv.Atoi(parts[2])
+		c = genMover(r, readers, moves)
 	case "P":
 		g, _ := strconv.Atoi(parts[1])
 		c = genConc(r, g, len(parts) > 2 && parts[2] == "stress")
@@ -199,6 +203,7 @@ func main() {
 			{"I/2/sweep", 3, 50}, {"I/3/sweep", 2, 50}, {"I/4/sweep", 2, 40}, {"I/8/sweep", 1, 30},
 			{"C/2", 18, 350}, {"C/3", 12, 250}, {"C/4", 8, 150}, {"C/8", 4, 100},
 			{"P/2", 4, 60}, {"P/3", 4, 60}, {"P/4", 3, 60},
+			{"M/2/8000", 3, 20}, {"M/3/8000", 3, 20}, {"M/4/20000", 2, 20},
 			// targeted classes: every limit / every stop count on trees of three levels; stored-again keys; clones of a full root
 			{"W/limits", 12, 150}, {"I/2/stops", 4, 40}, {"I/3/stops", 4, 40},
 			{"I/2/reinsert", 6, 60}, {"I/3/reinsert", 5, 50}, {"I/4/reinsert", 4, 40}, {"I/8/reinsert", 3, 30},
@@ -210,7 +215,7 @@ func main() {
 		if e.Search && e.Focus == "" {
 			// nothing diverged, the tie broke elsewhere (lock-discipline lint, proof): look for an atomicity failure with
 			// many concurrent callers of one wrapper
-			vols = []vol{{"P/3/stress", 0, 60}, {"P/5/stress", 0, 80}, {"P/8/stress", 0, 80}}
+			vols = []vol{{"P/3/stress", 0, 60}, {"P/5/stress", 0, 80}, {"P/8/stress", 0, 80}, {"M/3/50000", 0, 10}, {"M/4/50000", 0, 10}}
 		}
 		specs := []spec{}
 		for _, v := range vols {
@@ -225,9 +230,9 @@ func main() {
 		// mix the classes so that the case files the driver cuts are of similar size
 		e.Rnd.Shuffle(len(specs), func(i, j int) { specs[i], specs[j] = specs[j], specs[i] })
 		supervise(e, specs)
-		e.Meta["generator"] = "c03/4"
+		e.Meta["generator"] = "c03/5"
 	})
 }
 
 // the violation search concentrates on the family (wrapper / inner / clone / concurrent) that diverged
-func sameFamily(a, b string) bool { return a[0] == b[0] }
+func sameFamily(a, b string) bool { return a[0] == b[0] || (a[0] == 'M' && b[0] == 'P') || (a[0] == 'P' && b[0] == 'M') }
